@@ -47,4 +47,7 @@ write("C05", "D12-dot-3-4", "forward-op", fwd(MM(False, False, False), [leaf([3]
 write("C05", "D13-matmul-1x2x3-times-2x3x2", "forward-op", fwd(MM(False, False, False), [leaf([1, 2, 3]), leaf([2, 3, 2], start=100, step=100)]), "D13", "leading dimensions are broadcast one-sidedly")
 # D14 dot product backward
 write("C02", "D14-dot-backward", "grad-op", grad(MM(False, False, False), [leaf([3], True), leaf([3], True, 100, 100)], [2.0]), "D14", "backward of the two-vector dot product panics")
+# D15 division backward squares the divisor
+write("C02", "D15-softmax-large-arguments", "grad-op", {"op": "Softmax", "leaves": [{"dims": [2, 2], "vals": [600.0, 600.0, 1.0, 2.0], "tracked": True}], "seed": None, "uses": 1}, "D15", "softmax gradient for a row [600, 600] with the omitted seed must vanish; the squared sum of exponentials overflowed in the division backward")
+write("C02", "D15-div-large-divisor", "grad-op", {"op": "Div", "leaves": [{"dims": [2], "vals": [3e200, -5e180], "tracked": False}, {"dims": [2], "vals": [1e160, 2e155], "tracked": True}], "seed": [1e120, 1e130], "uses": 1}, "D15", "d(a/b)/db = -a/b^2 is representable although b^2 overflows")
 print("written")
